@@ -13,6 +13,14 @@ import (
 
 const verifDir = "/verif"
 
+// outDir is where evidence and replays go (overridden for self-tests on scratch copies).
+func outDir() string {
+	if *flagOut != "" {
+		return *flagOut
+	}
+	return verifDir
+}
+
 type KnownFinding struct {
 	Property   string `json:"property"`
 	Obligation string `json:"obligation"`
@@ -50,8 +58,21 @@ func loadJSON(path string, v interface{}) error {
 // allObligations generates every obligation of the package (all modes).
 func (pr *Program) allObligations() ([]*Obl, []string, map[string]bool) {
 	var names []string
+	called := map[string]bool{}
+	for _, f := range pr.Funcs {
+		for _, cal := range pr.callees(f) {
+			if pr.inPackage(cal) && cal != f {
+				called[pr.funcName(cal)] = true
+			}
+		}
+	}
 	for n := range pr.Funcs {
 		if initialisers[n] {
+			continue
+		}
+		// a function without a contract that has callers is verified in the context of
+		// each call site (inlined there), not stand-alone
+		if fc := pr.Cs.Funcs[n]; (fc == nil || fc.Inline) && called[n] {
 			continue
 		}
 		names = append(names, n)
@@ -179,7 +200,7 @@ func cmdCheck(args []string) {
 	var solverMS int
 	funcs := map[string]bool{}
 	var lines []string
-	os.MkdirAll(filepath.Join(verifDir, "replays", prop), 0o755)
+	os.MkdirAll(filepath.Join(outDir(), "replays", prop), 0o755)
 	for _, o := range sel {
 		solverMS += o.TimeMS
 		if o.Func != "" {
@@ -293,9 +314,9 @@ func cmdCheck(args []string) {
 			"bounded":                  []string{},
 		},
 	}
-	os.MkdirAll(filepath.Join(verifDir, "evidence"), 0o755)
+	os.MkdirAll(filepath.Join(outDir(), "evidence"), 0o755)
 	eb, _ := json.MarshalIndent(ev, "", " ")
-	os.WriteFile(filepath.Join(verifDir, "evidence", prop+".json"), eb, 0o644)
+	os.WriteFile(filepath.Join(outDir(), "evidence", prop+".json"), eb, 0o644)
 	fmt.Printf("property %s tier %s: %d obligations, %d discharged, %d known findings, %d violations, %.1fs\n", prop, tier, len(sel), discharged, knownHits, violations, wall)
 	if violations > 0 {
 		os.Exit(1)
@@ -305,7 +326,7 @@ func cmdCheck(args []string) {
 // writeReplay records a failed obligation; returns the path and whether a failing input was
 // reproduced on the real code.
 func (pr *Program) writeReplay(prop string, o *Obl) (string, bool) {
-	dir := filepath.Join(verifDir, "replays", prop)
+	dir := filepath.Join(outDir(), "replays", prop)
 	os.MkdirAll(dir, 0o755)
 	path := filepath.Join(dir, sanitize(o.Name)+".json")
 	rec := map[string]interface{}{
